@@ -49,13 +49,28 @@ var astWhitelist = []string{
 	"saltpack.nonceForDerivedSharedKey",
 	"saltpack.nonceForSenderKeySecretBox",
 	"saltpack.encryptionBlockNumber_check",
-	// stateful functions (GoLang2 semantics)
+}
+
+// Stateful functions (GoLang2 semantics), in three further generated files so that an edit of one
+// function re-checks only the proof files that import its group.
+// gen/GoAstRecv.v: header processing and per-packet glue of the receivers
+var astRecv = []string{
 	"saltpack.decryptStream_tryVisibleReceivers",
 	"saltpack.decryptStream_tryHiddenReceivers",
 	"saltpack.decryptStream_processHeader",
 	"saltpack.signcryptOpenStream_processHeader",
 	"saltpack.signcryptOpenStream_tryBoxSecretKeys",
 	"saltpack.signcryptOpenStream_trySharedSymmetricKeys",
+	"saltpack.verifyStream_readHeader",
+	"saltpack.verifyStream_getNextChunk",
+	"saltpack.decryptStream_getNextChunk",
+	"saltpack.signcryptOpenStream_getNextChunk",
+	"saltpack.symmetricKeyFromSlice",
+	"saltpack.rawBoxKeyFromSlice",
+}
+
+// gen/GoAstStreams.v: saltpack's reader adaptors and the write side of the armor layer
+var astStreams = []string{
 	"saltpack.chunkReader_Read",
 	"saltpack.punctuatedReader_Read",
 	"saltpack.punctuatedReader_ReadUntilPunctuation",
@@ -64,16 +79,14 @@ var astWhitelist = []string{
 	"saltpack.armorEncoderStream_Close",
 	"basex.encoder_Write",
 	"basex.encoder_Close",
+}
+
+// gen/GoAstSend.v: the encryption sender
+var astSend = []string{
 	"saltpack.encryptStream_Write",
 	"saltpack.encryptStream_Close",
 	"saltpack.encryptStream_encryptBlock",
 	"saltpack.encryptStream_init",
-	"saltpack.verifyStream_readHeader",
-	"saltpack.verifyStream_getNextChunk",
-	"saltpack.decryptStream_getNextChunk",
-	"saltpack.signcryptOpenStream_getNextChunk",
-	"saltpack.symmetricKeyFromSlice",
-	"saltpack.rawBoxKeyFromSlice",
 	"saltpack.checkEncryptReceivers",
 	"saltpack.shuffleEncryptReceivers",
 	"saltpack.csprngShuffle",
@@ -474,6 +487,18 @@ func (g *astGen) stmt(s ast.Stmt) string {
 		case *ast.IfStmt:
 			el = "[" + g.stmt(e) + "]"
 		}
+		// if m[k] { ... } with a bool-valued map (Go's set idiom) and no init statement: m[k] is the stored
+		// value when the key is present and false (the zero value) when it is absent, i.e.
+		//    v, ok := m[k]; if ok && v { ... }
+		// which is what is emitted (the apostrophe cannot occur in a Go identifier)
+		if ix, ok := x.Cond.(*ast.IndexExpr); ok && x.Init == nil {
+			if mt, ok := g.info.TypeOf(ix.X).Underlying().(*types.Map); ok {
+				if b, ok := mt.Elem().Underlying().(*types.Basic); ok && b.Kind() == types.Bool {
+					return fmt.Sprintf("SIf [SMapLookup \"v'\" \"ok'\" %s %s] (EBin OAnd \"bool\" (EVar \"ok'\") (EVar \"v'\"))\n      %s\n      %s",
+						g.expr(ix.X), g.expr(ix.Index), g.block(x.Body), el)
+				}
+			}
+		}
 		return fmt.Sprintf("SIf %s %s\n      %s\n      %s", g.initStmts(x.Init), g.expr(x.Cond), g.block(x.Body), el)
 	case *ast.SwitchStmt:
 		tag := "None"
@@ -482,22 +507,38 @@ func (g *astGen) stmt(s ast.Stmt) string {
 		}
 		var cases []string
 		dflt := "None"
-		for _, c := range x.Body.List {
-			cc := c.(*ast.CaseClause)
-			for _, st := range cc.Body {
+		// a clause ending in `fallthrough` continues with the statements of the next clause: its body is
+		// emitted as its own statements followed by the next clause's (computed from the last clause up)
+		bodies := make([][]ast.Stmt, len(x.Body.List))
+		for i := len(x.Body.List) - 1; i >= 0; i-- {
+			cc := x.Body.List[i].(*ast.CaseClause)
+			body := cc.Body
+			if n := len(body); n > 0 {
+				if br, ok := body[n-1].(*ast.BranchStmt); ok && br.Tok == token.FALLTHROUGH {
+					if i+1 >= len(x.Body.List) {
+						return "SUnsup \"fallthrough\""
+					}
+					body = append(append([]ast.Stmt{}, body[:n-1]...), bodies[i+1]...)
+				}
+			}
+			for _, st := range body {
 				if br, ok := st.(*ast.BranchStmt); ok && br.Tok == token.FALLTHROUGH {
 					return "SUnsup \"fallthrough\""
 				}
 			}
+			bodies[i] = body
+		}
+		for i, c := range x.Body.List {
+			cc := c.(*ast.CaseClause)
 			if cc.List == nil {
-				dflt = "(Some " + g.stmts(cc.Body) + ")"
+				dflt = "(Some " + g.stmts(bodies[i]) + ")"
 				continue
 			}
 			var ls []string
 			for _, e := range cc.List {
 				ls = append(ls, g.expr(e))
 			}
-			cases = append(cases, fmt.Sprintf("([%s], %s)", strings.Join(ls, "; "), g.stmts(cc.Body)))
+			cases = append(cases, fmt.Sprintf("([%s], %s)", strings.Join(ls, "; "), g.stmts(bodies[i])))
 		}
 		return fmt.Sprintf("SSwitch %s %s\n      [%s]\n      %s", g.initStmts(x.Init), tag, strings.Join(cases, ";\n       "), dflt)
 	case *ast.AssignStmt:
@@ -629,7 +670,7 @@ func (g *astGen) stmt(s ast.Stmt) string {
 	return fmt.Sprintf("SUnsup %s", coqStr(fmt.Sprintf("%T", s)))
 }
 
-func genGoAst(pkgs []*packages.Package) string {
+func genGoAst(pkgs []*packages.Package, astWhitelist []string) string {
 	o := &out{}
 	o.add("(* GENERATED from /repo by harness/cmd/gen (goast.go) — do not edit.")
 	o.add("   The bodies of the listed functions as terms of the deep embedding of model/GoLang.v. *)")
